@@ -67,6 +67,8 @@ def main():
     if os.path.exists(os.path.join(PARTS, 'Glue.md')):
         out.append(read('Glue.md'))
     out.append(seeded_table())
+    if os.path.exists(os.path.join(PARTS, 'Mutants.md')):
+        out.append(read('Mutants.md'))
     out.append(read('_tail.md'))
     text = '\n'.join(out)
     # numbers taken from the files they summarise
